@@ -1,6 +1,6 @@
 (* Dispatch: the single entry point [run : sx -> sx] of the executable model. *)
 From Coq Require Import List ZArith NArith Bool.
-From SV Require Import Sx Str Omap Beat Props Generated.Tables.
+From SV Require Import Sx Str Omap Beat Props Notes Generated.Tables.
 Import ListNotations.
 Open Scope Z_scope.
 
@@ -27,10 +27,22 @@ Definition run_props (cmd : Z) (args : list sx) : sx :=
   | _, _ => bad_request
   end.
 
+Definition run_notes (cmd : Z) (args : list sx) : sx :=
+  match cmd, args with
+  | 70, [s] => do s' <- un_str s;
+      ok (sx_opt (fun r => L [sx_nat (fst r); sx_list sx_note (snd r)]) (decode s'))
+  | 71, [s] => do s' <- un_str s; ok (sx_opt sx_nat (columns s'))
+  | 72, [a; b] => do a' <- un_note a; do b' <- un_note b;
+      ok (L [sx_bool (note_lt a' b'); sx_bool (note_le a' b'); sx_bool (note_gt a' b'); sx_bool (note_ge a' b')])
+  | 80, [c; ns] => do c' <- un_nat c; do ns' <- un_list un_note ns; ok (sx_opt sx_str (encode c' ns'))
+  | _, _ => bad_request
+  end.
+
 Definition run (req : sx) : sx :=
   match req with
   | L (A cmd :: args) =>
       if (140 <=? cmd) && (cmd <? 150) then run_beat cmd args
+      else if (70 <=? cmd) && (cmd <? 90) then run_notes cmd args
       else if (180 <=? cmd) && (cmd <? 190) then run_props cmd args
       else bad_request
   | _ => bad_request
